@@ -17,7 +17,7 @@ ASSUMPTIONS = [
     "case variants are exercised through the stream entry points (HashStreamFile, get_hash_stream, fobj_md5, file_md5)",
 ]
 MONITORS = "digest / passthrough bytes / byte count compared with hashlib on every evaluation"
-REQUIRED_COUNTERS = ["file_md5_with_a_used_progress_callback", "legacy_stream_counts_checked", "control_heavy_ascii_contents", "long_first_line_texts", "hash_file_over_index_filesystem", "dos2unix_case_variant_checks", "midway_digest_peeks", "streams_with_transient_read_failures", "transient_read_failures_retried", "interleaved_stream_pairs", "short_read_streams", "stream_checks", "fobj_md5_checks", "hash_file_checks", "dos2unix_variant_checks", "memfs_checks"]
+REQUIRED_COUNTERS = ["file_handles_hashed_from_their_position", "reads_of_whole_mebibytes", "file_md5_with_a_used_progress_callback", "legacy_stream_counts_checked", "control_heavy_ascii_contents", "long_first_line_texts", "hash_file_over_index_filesystem", "dos2unix_case_variant_checks", "midway_digest_peeks", "streams_with_transient_read_failures", "transient_read_failures_retried", "interleaved_stream_pairs", "short_read_streams", "stream_checks", "fobj_md5_checks", "hash_file_checks", "dos2unix_variant_checks", "memfs_checks"]
 
 PLAIN = ["md5", "sha1", "sha256", "sha512", "blake3", "sha224", "sha384", "md5-sha1", "sha3_256", "blake2b", "sha512_256"]
 VARIANTS = ["MD5", "Md5", "SHA256", "Sha256", "BLAKE3", "Blake3", "SHA1", "sHa512", "MD5-SHA1"]
@@ -236,6 +236,31 @@ def run_shard(ctx):
                     res.count("fobj_md5_checks")
                     if got != ref:
                         bad("fobj_md5-digest", f"fobj_md5({name}, chunk={cs}) != reference", case, got=got, ref=ref, **sample)
+                    if lname != "md5-dos2unix" and rng.random() < 0.08:
+                        # a handle on a real file, hashed from wherever it stands: right after a header was read from it, and once
+                        # more after it has been hashed to its end (nothing is left: the digest of no bytes)
+                        hp_ = os.path.join(d, f"handle{case}")
+                        with open(hp_, "wb") as f_:
+                            f_.write(data)
+                        with open(hp_, "rb") as f_:
+                            head_ = f_.read(rng.choice([0, 0, 1, 7, 512]))
+                            first_ = fobj_md5(f_, name=name)
+                            again_ = fobj_md5(f_, name=name)
+                        os.unlink(hp_)
+                        res.count("file_handles_hashed_from_their_position")
+                        if first_ != H(lname, data[len(head_):]) or again_ != H(lname, b""):
+                            bad("fobj_md5-digest/handle-not-at-start", f"fobj_md5({name}) of a file handle standing at byte {len(head_)} (then at the end) is not the digest of what was left to read", case, **sample)
+                    if lname != "md5-dos2unix" and rng.random() < 0.01:
+                        # a single read that returns a whole number (>= 2) of MiB
+                        k_ = rng.choice([2, 3])
+                        big_ = rng.randbytes(k_ * 2**20)
+                        res.count("reads_of_whole_mebibytes")
+                        if fobj_md5(io.BytesIO(big_), chunk_size=rng.choice([k_ * 2**20, 4 * 2**20]), name=name) != H(lname, big_):
+                            bad("fobj_md5-digest/read-of-whole-mebibytes", f"fobj_md5({name}) of {k_} MiB delivered by one read != reference", case, **{**sample, "size": len(big_)})
+                        st_ = get_hash_stream(io.BytesIO(big_), name)
+                        st_.read(-1)
+                        if st_.hash_value != H(lname, big_):
+                            bad("stream-digest/read-of-whole-mebibytes", f"{name} stream fed {k_} MiB by one read(-1) != reference", case, **{**sample, "size": len(big_)})
                 else:
                     if entry == "hash_file_memfs":
                         path = f"memory://verif-c14/{ctx.shard}-{case}"
